@@ -636,7 +636,11 @@ class FixedKeyDictNode(MappingNode, SequenceNode[Dict[LeafNode, KeyValuePairNode
             return Replace(self, node)
 
     def items(self) -> Iterator[Tuple[LeafNode, TreeNode]]:
-        yield from iter(self._children.items())
+        for kvp in self._children.values():
+            yield kvp.key, kvp.value
+
+    def copy_from(self: C, children: Iterable[KeyValuePairNode]) -> C:
+        return self.__class__({kvp.key: kvp for kvp in children})
 
     def editable_dict(self) -> Dict[str, Any]:
         ret = dict(self.__dict__)
